@@ -296,6 +296,10 @@ func supersedeRound(c *otter.Cache[int, int], r *rng, round int, stamp *atomic.I
 	}
 	mu.Unlock()
 	fmt.Fprintf(out, "supersede second=%v loads_while_second_in_flight=%d\n", second, third)
+	if hangs == 0 {
+		v, ok := c.GetIfPresent(k)
+		fmt.Fprintf(out, "final key=%d present=%v value=%d stale=%d firstoutcome=%s secondoutcome=%s fresh=%d loads=%d\n", k, ok, v, ld.base, ld.outcomes[0], ld.outcomes[1], ld.base+1, ld.calls.Load())
+	}
 	fmt.Fprintf(out, "quiescent hangs=%d inflight=%d\n", hangs, otter.VerifInflight(c))
 	return hangs == 0
 }
